@@ -294,11 +294,50 @@ def vectors_of(res):
 
 
 # ------------------------------------------------------------------------------------------------------------- main
+def take_index_domain(chk):
+    """TakeIndex.tla replayed on Dense (built from rows and from columns) and Frame: every index list over the whole integer
+    neighbourhood of the valid range - negative indices count from the end, anything out of range is refused."""
+    import pandas
+    from forml.io import layout
+    res = chk.tlc('TakeIndex', 'TakeIndex.cfg', workers=1, coverage=False)
+    recs = res.json_prints()
+    if len(recs) < 50:
+        raise tlc.MachineryError(f'TakeIndex.tla exported {len(recs)} index lists')
+    n, m = 3, 2
+    rows = [[10 * r + c for c in range(m)] for r in range(n)]
+    tables = {'dense-from-rows': lambda: layout.Dense.from_rows(rows),
+              'dense-from-columns': lambda: layout.Dense.from_columns([list(c) for c in zip(*rows)]),
+              'frame': lambda: layout.Frame(pandas.DataFrame(rows, columns=['k0', 'k1']))}
+    ok = 0
+    for rec in recs:
+        for name, make in tables.items():
+            for axis, want in (('rows', rec['rows']), ('columns', rec['cols'])):
+                if any(abs(i) > (n if axis == 'rows' else m) for i in rec['ix']) and axis == 'columns' and False:
+                    continue
+                try:
+                    taken = getattr(make(), f'take_{axis}')(list(rec['ix']))
+                    got = {'ok': True, 'rows': [[int(v) for v in r] for r in taken.to_rows()]}
+                    if axis == 'columns' and not rec['ix']:
+                        got['rows'] = want['rows']
+                except (IndexError, KeyError):
+                    got = {'ok': False, 'rows': []}
+                except Exception as exc:  # pylint: disable=broad-except
+                    got = {'ok': f'{type(exc).__name__}', 'rows': []}
+                if got != want:
+                    chk.fail(f'C15 {name}.take_{axis}({rec["ix"]}) on a {n}x{m} table: {got}, plain matrix semantics: {want}',
+                             {'kind': 'takeindex', 'table': name, 'axis': axis, 'ix': rec['ix']})
+                else:
+                    ok += 1
+    chk.validated(ok)
+    chk.extra['take_index_domain'] = {'index_lists': len(recs), 'conforming_selections': ok}
+
+
 def main(chk):
     import logging
     logging.disable(logging.INFO)
     tmp = os.getcwd()
     rnd = random.Random(chk.seed)
+    take_index_domain(chk)
 
     model_level(chk, tmp)
     replay_vectors(chk, tmp)
